@@ -61,6 +61,7 @@ func c03Alphabet(avoid map[string]bool) []model.Op {
 		{Op: "AddEdge", Graph: "g2", Elems: []*model.Elem{me("e1", "r", "a", "b", nil)}},
 		{Op: "BulkAdd", Graph: "g1", Elems: []*model.Elem{mv("c", "P", nil), me("e3", "s", "c", "a", nil)}},
 		{Op: "BulkAdd", Graph: "g1", Elems: []*model.Elem{mv("b", "Q", M{"x": 3.0})}},
+		{Op: "BulkAdd", Graph: "g1", Elems: []*model.Elem{mv("c", "Q", M{"x": 4.0}), me("c", "s", "c", "a", nil)}}, // a vertex and an edge with one gid are two elements
 		{Op: "DelVertex", Graph: "g1", ID: "a"},
 		{Op: "DelVertex", Graph: "g1", ID: "b"},
 		{Op: "DelVertex", Graph: "g1", ID: "zz"},
